@@ -3,6 +3,7 @@ package main
 import (
 	"bytes"
 	"encoding/json"
+	"fmt"
 	"math/rand"
 	"os"
 	"path/filepath"
@@ -566,8 +567,81 @@ func wideMarkers(f func([]byte)) {
 	}
 }
 
+// htmlBlockLines yields every two-line document where a line is a container prefix (with spaces, tabs, partially consumed tabs)
+// followed by a piece of an HTML block: start lines of conditions 1-7, lines that meet an end condition, one-line blocks.
+func htmlBlockLines(f func([]byte)) {
+	prefixes := []string{"", "> ", ">\t", " \t", "- ", "\t", "1. ", "  "}
+	contents := []string{"<!-- c -->", "<!-- c", "d --> e", "<pre>", "x</pre>", "<?php", "echo ?>", "<div>", "</div>", "<![CDATA[", "]]>", "<!X", "y>", "<b>", "a", ""}
+	var lines []string
+	for _, p := range prefixes {
+		for _, c := range contents {
+			lines = append(lines, p+c+"\n")
+		}
+	}
+	for _, a := range lines {
+		for _, b := range lines {
+			f([]byte(a + b))
+		}
+	}
+}
+
+// indentedFences yields fenced code blocks whose opening fence is indented by 0-3 columns relative to its container, with info
+// strings that hold multi-byte characters (a span that is off by the indentation ends inside one).
+func indentedFences(f func([]byte)) {
+	for _, c := range [][2]string{{"", ""}, {"> ", "> "}, {"- ", "  "}, {"1. ", "   "}, {"> - ", ">   "}} {
+		for ind := 0; ind <= 3; ind++ {
+			sp := strings.Repeat(" ", ind)
+			for _, fence := range []string{"```", "~~~~"} {
+				for _, info := range []string{"", "x", "\u00e9", "x \u00e9", "\u00e9\u00e9 x", " \u20ac", "caf\u00e9 \\* &amp;"} {
+					f([]byte(c[0] + sp + fence + info + "\n" + c[1] + sp + "c\n" + c[1] + sp + fence + "\n"))
+					f([]byte(c[0] + "p\n" + c[1] + sp + fence + info + "\n" + c[1] + "c\n"))
+				}
+			}
+		}
+	}
+}
+
+// emailAutolinks yields autolinks whose local part holds each character the e-mail grammar allows besides letters and digits
+// (among them & and ', which must be escaped on output), in text, link text, image descriptions and headings.
+func emailAutolinks(f func([]byte)) {
+	var locals []string
+	for _, c := range ".!#$%&'*+/=?^_`{|}~-" {
+		locals = append(locals, "a"+string(c)+"b", string(c)+"a", "a"+string(c))
+	}
+	locals = append(locals, "a&lt", "a&amp", "&#38", "a&lt;b", "a'b\"c", "a&b'c&d")
+	for _, l := range locals {
+		for _, dom := range []string{"x.y", "x-y.z", "x"} {
+			a := "<" + l + "@" + dom + ">"
+			f([]byte("see " + a + " now\n"))
+			f([]byte("[" + a + "](/u) ![" + a + "](/v \"t\")\n"))
+			f([]byte("# " + a + "\n> " + a + "\n"))
+		}
+	}
+}
+
+// refRuns yields two character references with hostile bytes between them, in every context whose text reaches an attribute
+// or a text run: a node that swallows the bytes in between would let them through unescaped.
+func refRuns(f func([]byte)) {
+	refs := []string{"&lt;", "&gt;", "&amp;", "&quot;", "&#34;", "&#x22;"}
+	mids := []string{"\"", "'", ">", "x", "\"on=\"", "=", "\"x\"", "<b>"}
+	ctxs := []string{"%s\n", "![%s](u)\n", "[%s](u)\n", "[a](u \"%s\")\n", "# %s\n", "![a][r]\n\n[r]: /u '%s'\n"}
+	for _, a := range refs {
+		for _, m := range mids {
+			for _, b := range refs {
+				for _, c := range ctxs {
+					f([]byte(fmt.Sprintf(c, a+m+b)))
+				}
+			}
+		}
+	}
+}
+
 // structured yields the deterministic structured families shared by the input sets of most checks.
 func (s *inputSource) structured(thorough bool, f func([]byte)) {
+	htmlBlockLines(f)
+	indentedFences(f)
+	emailAutolinks(f)
+	refRuns(f)
 	nestedInlines(map[bool]int{false: 3, true: 4}[thorough], f)
 	linkPieces(f)
 	dupDefinitions(f)
@@ -664,6 +738,9 @@ func largeInputs() [][]byte {
 	out = append(out, []byte(strings.Repeat("x", 9000)+"\n\n"+strings.Repeat("y\x00", 5000))) // long lines, NULs across chunk borders
 	out = append(out, []byte(strings.Repeat("- item\n\n", 3000)))
 	out = append(out, []byte("```\n"+strings.Repeat("code line\r\n", 8000)+"```\n"))
+	// references that expand to far more text than the document holds: a long title used a few times, a short one used very often
+	out = append(out, []byte("[r]: /u '"+strings.Repeat("t", 40000)+"'\n\n"+strings.Repeat("see [r] and [x][r]\n\n", 4)))
+	out = append(out, []byte("[r]: /"+strings.Repeat("u", 90)+"\n\n"+strings.Repeat("[r] [r][] [x][r]\n", 600)+"\n![r]\n"))
 	return out
 }
 
